@@ -67,6 +67,24 @@ func drawInput(s *core.Shard, j int, corpus []*ld.Case) *input {
 		in.origin = "corpus"
 		return in
 	}
+	if j%12 == 2 || j%12 == 3 {
+		// hand-shaped pair sharing a batch: an input whose override rewrites a short-syntax dependency
+		// in long form with non-default values, and one that only uses the short syntax. What the
+		// first load does to a dependency must not be visible in any other load of the process.
+		v := fmt.Sprint(j)
+		c := &ld.Case{Files: map[string]string{}, ComposeFiles: []string{"compose.yaml"}}
+		if j%12 == 2 {
+			c.Files["compose.yaml"] = "services:\n  app" + v + ":\n    image: img\n    depends_on: [db, cache]\n    links: [db]\n  db: {image: img}\n  cache: {image: img}\n"
+			c.Files["override.yaml"] = "services:\n  app" + v + ":\n    depends_on:\n      db: {condition: service_healthy, restart: true, required: false}\n"
+			c.ComposeFiles = []string{"compose.yaml", "override.yaml"}
+			in.origin = "hand-shaped/dependency-rewritten-by-override"
+		} else {
+			c.Files["compose.yaml"] = "services:\n  web" + v + ":\n    image: img\n    depends_on: [api, store]\n    networks: [front, back]\n  api:\n    image: img\n    depends_on:\n      - store\n  store: {image: img}\nnetworks:\n  front: {}\n  back: {}\n"
+			in.origin = "hand-shaped/short-syntax-only"
+		}
+		in.c = c
+		return in
+	}
 	cfg := gen.Config{
 		Density:     []float64{0.15, 0.3, 0.5}[r.Intn(3)],
 		Profiles:    r.Intn(3) == 0,
